@@ -259,7 +259,7 @@ func runC09(c *run.Ctx) {
 	c.Count("exhaustive_strings", n)
 	// random concatenations of token pieces (adjacency of keywords, numbers,
 	// multi-line literals, operator prefixes)
-	m := c.Pick(60000, 1500000)
+	m := c.Pick(60000, 6000000)
 	for i := 0; i < m; i++ {
 		if !c.Mine(i) {
 			continue
@@ -283,7 +283,7 @@ func runC09(c *run.Ctx) {
 		})
 	}
 	// fresh lexer per input (construction path) on a sample
-	for i := 0; i < c.Pick(2000, 20000); i++ {
+	for i := 0; i < c.Pick(2000, 100000); i++ {
 		if !c.Mine(i) {
 			continue
 		}
